@@ -216,6 +216,9 @@ def variants(case, real, opts, tiny=False):
     elif op == "rank1":
         vs = [fill.dense_fill([S["I"][p]], S["f"] + p + 1, S["cx"], dt) for p in range(len(S["I"]))]
         out.append(("", [], lambda: tt.rank1TT(vs), dt, s))
+    elif op == "meshgrid_same":
+        v = fill.dense_fill([S["I"][0]], S["f"] + 1, S["cx"], dt)
+        out.append(("", [], lambda: tt.meshgrid([v] * len(S["I"]))[case["q"] - 1], dt, s))
     elif op == "meshgrid":
         vs = [fill.dense_fill([S["I"][p]], S["f"] + p + 1, S["cx"], dt) for p in range(len(S["I"]))]
         out.append(("", [], lambda: tt.meshgrid(vs)[case["q"] - 1], dt, s))
